@@ -7,7 +7,7 @@ import common as C
 
 PROP = 'C14'
 THEOREMS = ['pos_pow_iff_walk_thm', 'is_ergodic_unfold_thm', 'ergodic_sound_thm', 'ergodic_complete_loop_partial',
-            'wielandt_exponent_covers_loop_bound', 'walks_monotone_thm', 'bpow_walk_thm', 'atol_free_eq_thm',
+            'wielandt_exponent_covers_loop_bound', 'ergodic_complete_le4', 'walks_monotone_thm', 'bpow_walk_thm', 'atol_free_eq_thm',
             'ergodic_implies_fuzzy_thm', 'nonstochastic_neither_thm']
 CONFIGS = [dict(jit=True), dict(jit=False)]
 RULE = ('matrices from random sparse count matrices with 2..8 states (irreducible, reducible, '
